@@ -796,12 +796,18 @@ func solveAll(w *World, obls []*Obligation, timeoutS, seed int) {
 			continue
 		}
 		retried++
-		r := solve(o.Name+".retry", o.query(w), o.Values, timeoutS, seed+1, "")
-		if r.Status == "unsat" {
-			r.Solver += "+retry"
-			r.Ms += o.Result.Ms
-			o.Result = &r
-			o.Relaxed = nil
+		for _, sd := range []int{seed + 1, seed + 2} {
+			r := solve(o.Name+".retry", o.query(w), o.Values, timeoutS, sd, "")
+			if r.Status == "unsat" {
+				r.Solver += "+retry"
+				r.Ms += o.Result.Ms
+				o.Result = &r
+				o.Relaxed = nil
+				break
+			}
+			if r.Status == "sat" {
+				break
+			}
 		}
 	}
 }
